@@ -35,12 +35,13 @@ def check(prop, argv):
     parts = [(_name, _pipe(_name).collect(prop, tier, seed)) for _name in PIPES[prop]]
     witnesses, assumptions, samples = [], [], []
     cov = {"states": 0, "transitions": 0, "traces_validated_against_impl": 0, "distinct_nontrivial": 0,
-           "pipelines": {}}
+           "evaluations": 0, "pipelines": {}}
     for name, part in parts:
         witnesses += part["witnesses"]
         assumptions += [a for a in part["assumptions"] if a not in assumptions]
         for k in ("states", "transitions", "traces_validated_against_impl", "distinct_nontrivial"):
             cov[k] += part["cov"].get(k, 0)
+        cov["evaluations"] += part["cov"].get("evaluations", part["cov"].get("traces_validated_against_impl", 0))
         samples += part["cov"].get("samples", [])[:1]
         cov["pipelines"][name] = {k: v for k, v in part["cov"].items() if k != "samples"}
     cov["samples"] = samples
